@@ -5,6 +5,14 @@ import json, os, subprocess
 ROOT = os.path.dirname(os.path.dirname(os.path.abspath(__file__)))
 
 CLAIMED = {
+  "C21": dict(engine="E1 netsim1", level="fault_enumeration", design="§4 C21",
+      technique="deterministic simulation: simulated sender cutting message streams at seeded/enumerated split points and interleaving protocols, real demuxer and reassembly on a seeded pipe (short reads, stalls, delays)",
+      text="For every protocol/message variant of both stacks a simulated sender cuts the concatenated encodings at split points (all cut masks sampled for streams <= 12 bytes; all-1-byte, every single offset, message-boundary and near-boundary, dense and random cut sets otherwise), interleaves other protocols' segments and feeds the real reassembly code; the messages yielded must equal those sent, in order, with no error and no left-over (sentinel / empty partial map).",
+      note="Split points are sampled per run, not exhaustively enumerated for long streams; zero-length segments are not generated. Mode B (TcpConnectionPool) is not driven; read_full_msgs is called the way the pool calls it."),
+  "C22": dict(engine="E1 netsim1", level="exploration", design="§4 C22",
+      technique="deterministic simulation of a message zoo crossing the real muxers/bearers; on-wire judgement by an independent strict RFC 8949 walker plus decode-and-compare at the receiving agent",
+      text="Generated messages of every variant of every protocol of both stacks are encoded by the real encoders, walked by an independent strict CBOR parser (single item, declared lengths satisfied), decoded back and compared, then carried through the real muxer/demuxer (or write_message/read_full_msgs) over a seeded pipe and compared again. Per-variant counters must be non-zero.",
+      note="Values come from the workload generator (wire-representable combinations). Four KNOWN-FINDING signatures: localtxsubmission reject-reason encoders."),
   "C20": dict(engine="E1 netsim1", level="exploration", design="§4 C20, §2.2",
       technique="deterministic simulation of two real Plexers on a paused single-thread tokio runtime over seeded in-memory pipes (stall/delay/short-read/partial-write/back-pressure schedules); per-stream FIFO exactly-once history oracle + bounded-liveness watchdog",
       text="Seeded schedules of up to 6 agents x 200 uniquely stamped chunks (sizes 0..65535) through two real multiplexers; every pipe poll and task poll is a scheduling point decided by the run's PRNG; each endpoint must receive exactly its counterpart's chunks in order and nothing else, and the run must quiesce before the simulated-time watchdog.",
@@ -35,7 +43,7 @@ CLAIMED = {
       note="Trusts blake2b/ed25519 of pallas-crypto (used on both sides) and the hand-written strict CBOR walker. Single actor; no scheduler/clock/transport."),
 }
 
-PENDING = {k: 'claimed in DESIGN.md; check under construction (not yet registered)' for k in 'C09 C12 C13 C21 C22 C23 C26 C39 C40 C42 C43'.split()}  # id -> reason while a claimed check is still being built
+PENDING = {k: 'claimed in DESIGN.md; check under construction (not yet registered)' for k in 'C09 C12 C13 C23 C26 C39 C40 C42 C43'.split()}  # id -> reason while a claimed check is still being built
 
 NA = {
  "C01": "Flat encoder/decoder are in-memory functions of a value sequence; bit alignment depends on the values written, not on any schedule, stream, clock or fault.",
